@@ -2,6 +2,7 @@ import Props.C15
 import Props.C16
 import Props.C17
 import PyrefactModel.C16.Norm
+import PyrefactModel.C15.DupKeys
 /-!
 # C02 — every individual rewrite rule preserves behaviour: the rules whose decision cores are modelled
 
@@ -51,6 +52,20 @@ theorem boolop_values_preserves {α : Type} (truthy : α → Bool) (n : Nat) (l 
     C15.evalAnd truthy ((C15.iterPass C15.passAnd n l).map (·.2)) = C15.evalAnd truthy (l.map (·.2)) ∧
     C15.evalOr truthy ((C15.iterPass C15.passOr n l).map (·.2)) = C15.evalOr truthy (l.map (·.2)) :=
   C15.boolop_values_iterated_sound truthy n l h
+
+/-- `remove_duplicate_dict_keys`, the part that holds: every key is looked up to the same value -/
+theorem duplicate_dict_keys_lookup {κ ν : Type} [DecidableEq κ] (l : List (κ × ν)) (k : κ) :
+    (C15.build (C15.keepLast l)).lookup k = (C15.build l).lookup k := C15.keepLast_lookup l k
+
+/-- … and the part that does not (recorded finding `dict-duplicate-key-order`, replayed on the real rule): the order of
+the items changes, because Python keeps the position of the FIRST occurrence of a key and the rule keeps the last pair -/
+theorem duplicate_dict_keys_order_changes :
+    (C15.build (C15.keepLast [(0, 1), (1, 2), (0, 3)])).map (·.1) ≠ (C15.build [(0, 1), (1, 2), (0, 3)]).map (·.1) :=
+  C15.order_counterexample
+
+/-- `remove_duplicate_set_elts` keeps the first occurrence of every constant, which is the set Python builds, in its order -/
+theorem duplicate_set_elts_sound {κ : Type} [DecidableEq κ] (l : List κ) : C15.buildS l = C15.keepFirst [] l :=
+  C15.keepFirst_build l
 
 /-! ## control-flow rules: a proved validator
 
@@ -108,7 +123,7 @@ example : C16.validate
 /-- rules with a theorem above (names as in the pipeline table); everything else: sweep only -/
 def modelledRules : List String :=
   ["fixes.delete_unreachable_code", "fixes.remove_dead_ifs", "fixes.swap_if_else", "fixes.early_return", "fixes.early_continue",
-   "fixes.remove_redundant_else", "fixes.breakout_common_code_in_ifs (trailing code)", "fixes.remove_redundant_boolop_values",
+   "fixes.remove_redundant_else", "fixes.breakout_common_code_in_ifs (trailing code)", "fixes.remove_redundant_boolop_values", "fixes.remove_duplicate_set_elts", "fixes.remove_duplicate_dict_keys (lookup only)",
    "fixes.replace_negated_numeric_comparison", "symbolic_math.simplify_boolean_expressions", "symbolic_math.simplify_constrained_range"]
 
 end C02
